@@ -320,6 +320,17 @@ def engine_rewrite(item, sig, body, env, log, sig_line, body_line, qual):
             rl.append(RL.R('R1.acq.read:' + f, r'self \. %s \. (?:read|borrow) \( \)' % f, '(&*%s)' % f, 'shared lock acquisition -> & re-borrow'))
         for f in fields:
             rl.append(RL.R('R2.field:' + f, r'self \. %s\b' % f, f, 'self.<field> -> split parameter'))
+    elif item.get('interference'):
+        rl.append(RL.SELF_MUT)
+        for f in state:
+            if f == 'stats':
+                continue
+            rl.append(RL.R('R1i.acq.write:' + f, r'self \. %s \. (?:write|lock|borrow_mut) \( \)' % f, '(havoc_mut(&mut self.%s))' % f,
+                           'interference projection: exclusive acquisition -> the guarded data may have changed arbitrarily, then &mut borrow'))
+            rl.append(RL.R('R1i.acq.read:' + f, r'self \. %s \. (?:read|borrow) \( \)' % f, '(havoc_shared(&mut self.%s))' % f,
+                           'interference projection: shared acquisition -> the guarded data may have changed arbitrarily, then & borrow'))
+            rl.append(RL.R('R1i.dashmap:' + f, r'self \. %s \. (get_mut|get|contains_key|remove|insert|len|iter|clear) \(' % f, r'havoc_mut(&mut self.%s).\1(' % f,
+                           'interference projection: every DashMap operation sees a store other threads may have changed'))
     else:
         rl.append(RL.SELF_MUT)
         for f in state:
